@@ -1,4 +1,4 @@
 SPECIFICATION Spec
-CONSTANTS Decimals = 6  NoClose = TRUE  AlwaysTxt = FALSE
+CONSTANTS Decimals = 6  NoClose = TRUE  AlwaysTxt = FALSE  RawHeader = FALSE
 CHECK_DEADLOCK FALSE
 INVARIANT ClosedPolyline
